@@ -53,6 +53,50 @@ def _library_classes():
 
 
 _MODULE_PRISTINE = {}
+_MEMO_ATTRS = None
+
+
+def memo_attrs():
+    """
+    Names of the per-vertex attributes that neighbour caching writes to, discovered by experiment
+    (no private name is hard-wired): build a tiny graph, query it with caching on, and see which
+    entries of vars(vertex) appear or change.
+    """
+    global _MEMO_ATTRS
+    if _MEMO_ATTRS is None:
+        from edgegraph.traversal import helpers as _h
+        saved = Vertex.NEIGHBOR_CACHING
+        try:
+            a, b = Vertex(), Vertex()
+            DirectedEdge(a, b)
+            before = {k: repr(v) for k, v in vars(a).items()}
+            Vertex.NEIGHBOR_CACHING = True
+            _h.neighbors(a)
+            _h.neighbors(a, _h.DIR_SENS_ANY, _h.LNK_UNKNOWN_NEIGHBOR)
+            after = {k: repr(v) for k, v in vars(a).items()}
+            _MEMO_ATTRS = tuple(sorted(k for k in after if before.get(k) != after[k]))
+        finally:
+            Vertex.NEIGHBOR_CACHING = saved
+    return _MEMO_ATTRS
+
+
+def memo_is_warm(v):
+    return any(vars(v).get(k) for k in memo_attrs())
+
+
+def stats_tables():
+    """class-level dicts of Vertex that are keyed by uids (the cache statistics table, under any name)"""
+    out = []
+    for name, val in vars(Vertex).items():
+        if isinstance(val, dict) and not (name.startswith("__") and name.endswith("__")):
+            out.append((name, val))
+    return out
+
+
+def is_registered(x):
+    """does some class-level table of Vertex hold an entry for this vertex's uid?"""
+    u = x.uid
+    return any(u in t for _, t in stats_tables())
 
 
 def _library_module_globals():
@@ -103,7 +147,9 @@ def new_item():
                 if key not in _PRISTINE:
                     # first sight: the table that maps uids to statistics starts empty; anything else
                     # is taken as it is now (first call happens before any world is built)
-                    _PRISTINE[key] = type(val)() if name == "_CACHE_STATS" else _copy.copy(val)
+                    # tables keyed by uid (the cache statistics) start empty; anything else is taken
+                    # as it is now (the first call happens before any world is built)
+                    _PRISTINE[key] = type(val)() if (cls is Vertex and isinstance(val, dict)) else _copy.copy(val)
                 _restore(val, _PRISTINE[key])
     for mod, gname, val in _library_module_globals():
         key = (mod.__name__, gname)
@@ -174,8 +220,8 @@ def class_level_state():
         for name, val in sorted(vars(cls).items()):
             if name.startswith("__") and name.endswith("__"):
                 continue
-            if name == "_CACHE_STATS":
-                continue
+            if cls is Vertex and isinstance(val, dict) and all(isinstance(k, int) for k in val):
+                continue          # uid-keyed statistics table(s): represented by the 'registered' bit
             if isinstance(val, (dict, list, set)):
                 out.append((cls.__name__, name, val))
     return out
@@ -190,7 +236,7 @@ def canon_world(w, skip_attrs=()):
             w.roots() + [v for _, _, v in cls_state],
             uid="drop",
             skip_attrs=skip_attrs,
-            registered=lambda x: x.uid in Vertex._CACHE_STATS,
+            registered=is_registered,
         ),
     )
 
